@@ -30,15 +30,16 @@ import (
 
 type c18Prog struct {
 	Entry   c08Prog `json:"entry"`
-	WKey    int     `json:"wkey"`             // writer's link key
-	RKey    int     `json:"rkey"`             // other reader's link key (made different from wkey)
-	Appends []int   `json:"appends"`          // pointer counts of a small log built with the writer key
-	Reopen  int     `json:"reopen"`           // loader used to reopen the log before appending again (index, mod 4)
-	KeyBuf  int     `json:"keyBuf,omitempty"` // how the writer's codec got its key: 0 as usual; 1 from a buffer the caller wipes afterwards; 2 from a buffer into which the caller then loads the other reader's key
+	WKey    int     `json:"wkey"`              // writer's link key
+	RKey    int     `json:"rkey"`              // other reader's link key (made different from wkey)
+	Appends []int   `json:"appends"`           // pointer counts of a small log built with the writer key
+	Reopen  int     `json:"reopen"`            // loader used to reopen the log before appending again (index, mod 4)
+	KeyBuf  int     `json:"keyBuf,omitempty"`  // how the writer's codec got its key: 0 as usual; 1 from a buffer the caller wipes afterwards; 2 from a buffer into which the caller then loads the other reader's key
 	KeyKind int     `json:"keyKind,omitempty"` // 0: the library's secretbox keys; 1: shared keys of another make (AES-GCM, 12-byte nonces) behind the same enc.SharedKey interface
 	Wrapped bool    `json:"wrapped,omitempty"` // the writer's codec is used through a struct that embeds it (a delegating wrapper)
-	Derive  bool    `json:"derive,omitempty"` // the readers' codecs (no key / other key) are derived from the writer's codec object with ApplyOptions instead of being built from scratch
-	Opts    int     `json:"opts"`             // CreateEntryOptions of a second write of the entry: bit 0 Pin, bit 1 PreSigned
+	OneOpts bool    `json:"oneOpts,omitempty"` // the caller configures all three codecs (writer, other key, no key) through ONE cbor.Options value, changing its key field between the ApplyOptions calls
+	Derive  bool    `json:"derive,omitempty"`  // the readers' codecs (no key / other key) are derived from the writer's codec object with ApplyOptions instead of being built from scratch
+	Opts    int     `json:"opts"`              // CreateEntryOptions of a second write of the entry: bit 0 Pin, bit 1 PreSigned
 }
 
 func genC18(t *rapid.T) c18Prog {
@@ -55,6 +56,7 @@ func genC18(t *rapid.T) c18Prog {
 		Derive:  rapid.IntRange(0, 2).Draw(t, "deriveReaders") == 0,
 		Wrapped: rapid.IntRange(0, 3).Draw(t, "wrappedCodec") == 0,
 		KeyKind: rapid.SampledFrom([]int{0, 0, 0, 1}).Draw(t, "keyKind"),
+		OneOpts: rapid.IntRange(0, 3).Draw(t, "oneOptionsValue") == 0,
 	}
 }
 
@@ -211,6 +213,18 @@ func runC18(tb ev.TB, p c18Prog) ev.Result {
 		wio = world.IOFromBuffer(buf)
 		copy(buf, world.LinkKeyBytes(rk)) // the same buffer serves to load the next key
 		otherio = world.IOFromBuffer(buf)
+	}
+	if p.OneOpts && !gcm && p.KeyBuf == 0 {
+		// one options value serves to configure all three codecs; what the caller writes into it after a codec was
+		// derived is no business of that codec
+		if base, err := cbor.IO(&entry.Entry{}, &entry.LamportClock{}); err == nil {
+			opts := &cbor.Options{LinkKey: world.LinkKey(wk)}
+			wio = base.ApplyOptions(opts)
+			opts.LinkKey = world.LinkKey(rk)
+			otherio = base.ApplyOptions(opts)
+			opts.LinkKey = nil
+			noio = base.ApplyOptions(opts)
+		}
 	}
 	if p.Wrapped {
 		// an application wraps the codec it was given (to count writes, say): the wrapper promotes every method of the
